@@ -4,7 +4,7 @@ From Boltons Require Import Lib.Prelude Lib.C07_Str Spec.C07_Spec Gen.C07_Gen Mo
      Proofs.C07_StrLemmas Proofs.C07_Rds Proofs.C07_Resolve Proofs.C07_Parse Proofs.C07_Navigate
      Proofs.C07_Text Proofs.C07_RfcExamples Gen.C07_Src Proofs.C07_SrcEq Check.C07_Check
      Proofs.C07_Refine Proofs.C07_RoundTrip Proofs.C07_Unrooted Proofs.C07_Case
-     Proofs.C07_RefineUnrooted Proofs.C07_CaseAuth Proofs.C07_CaseRefine.
+     Proofs.C07_RefineUnrooted Proofs.C07_CaseAuth Proofs.C07_CaseRefine Proofs.C07_EmptyAuth.
 Open Scope N_scope.
 Open Scope list_scope.
 
@@ -134,6 +134,17 @@ Example C07_navigate_mixed_case_ex :
   wf_base_mc ex_mixed /\ u_scheme ex_mixed = codes "HTTP" /\
   to_text (navigate_url ex_mixed ex_ref1) = codes "http://U:p@example.com:8080/g//?y=2#s".
 Proof. exact ex_mixed_ok. Qed.
+
+(* bases with an empty authority under a scheme that has one ("file:///a/b"), non-empty path *)
+Theorem C07_navigate_empty_authority : forall b r, wf_base_ea b -> wf_ref r ->
+  spec_navigate_strict (to_text b) (to_text r) (to_text (navigate_rel b r)) = true.
+Proof. exact navigate_empty_authority. Qed.
+Print Assumptions C07_navigate_empty_authority.
+Example C07_navigate_empty_authority_ex :
+  wf_base_ea ex_file /\ to_text ex_file = codes "file:///a/b/../c?q#f" /\
+  to_text (navigate_rel ex_file ex_ref2) = codes "file:///z/" /\
+  to_text (navigate_rel ex_file ex_ref1) = codes "file:///g//?y=2#s".
+Proof. exact ex_file_ok. Qed.
 
 (* bases whose path_parts lack the leading '' (URL.from_parts(host=..., path_parts=('post', '123')),
    the usage its documentation shows): rendered like, and navigated exactly like, the rooted URL
